@@ -1,6 +1,7 @@
 #!/bin/bash
 # verify_mut.sh <ID> <name> <nprocs>: confirm a seeded mutation (patched worktree /tmp/mut/<ID>, outputs /tmp/mut/<ID>_out)
 #   - patch applies to a clean checkout; demo passes on the clean build (/tmp/wt_tpl) and fails on the patched build;
+#   - /tmp/wt_tpl is a scratch copy of a built /repo (rsync -a /repo/ /tmp/wt_tpl/); it is removed at the end of a session and must be recreated before using this tool (no registered check needs it).
 #   - the whole baseline test suite still passes on the patched build.  Stores everything under /verif/seeded/<name>/.
 ID=$1; NAME=$2; NP=${3:-1}
 export OMPI_ALLOW_RUN_AS_ROOT=1 OMPI_ALLOW_RUN_AS_ROOT_CONFIRM=1 OMPI_MCA_rmaps_base_oversubscribe=1 OMPI_MCA_btl_vader_single_copy_mechanism=none
